@@ -15,6 +15,10 @@ NOT_APPLICABLE = {
 
 # property -> (engine, category, technique, text, note, design_ref)
 CLAIMED = {
+    'C18': ('loopterm', 'other', 'termination certificates: per-loop ranking argument over the structured AST (constant-step counter on every path, loop-invariant bound with callee mod summaries, capped exits incl. callee "returns non-zero when a>b" summaries) for all loops reachable in the call graph from the fitting roots',
+            'Decides the termination clause only: each of the 435 loops reachable from PCA/PLS/CPCA/KMeans/NelderMeadSimplex/CV drivers/MLR workers has a counted/capped/consuming certificate, or is one of 3 listed rejection-sampling/assumed loops, or is the one open known finding. Finiteness of components and zero-vs-NaN variance are NOT decided.',
+            'Trusted: clang AST, structured control flow, no aliasing of a container under two names inside one loop, thread counts >= 1. Unknown loop shapes are violations (no certificate), vanished roots are ANALYSIS-BROKEN.',
+            'DESIGN.md 2/E4, 3/C18'),
     'C06': ('threads', 'other', 'whole-program call graph + global-write effect analysis from every pthread entry (thread escape), must-precede dataflow for seeding, structural create/join pairing, polynomial seed-schedule check',
             'Decides the race/seeding/join clauses only: no reachable unsynchronised write to shared mutable state from any of the 15 thread entries; RNG state touched only by the RNG API; every worker seeds (from its argument) before it draws; all 13 dispatch regions join exactly what they create before freeing/reading; the bootstrap seed is schedule-invariant. Bit-identity of floating-point results and rounding-level equality across thread counts are NOT decided.',
             'Trusted: clang AST; structured control flow (no goto/switch, re-checked); pthread_create/join as the only thread primitives; mutex regions recognised lexically.',
